@@ -31,6 +31,7 @@ func init() {
 			ruleContribOpen("C09.table"),
 			ruleOpenGuard("C09.guard"),
 			ruleOpenSkipped("C09.skip"),
+			ruleHorzOpenEnd("C09.horz"),
 			ruleEmit("C09.route"),
 		},
 	})
@@ -107,13 +108,13 @@ func init() {
 		id: "C02",
 		explanation: "Decides structural clauses of C02: (emit) every closed path reaches a solution only through cleanCollinear -> buildPath(pts, c.reverseSolution, false, &path) -> append guarded by buildPath()==true, in the flat and in the tree pipeline alike; (buildPath) buildPath refuses rings of fewer than 3 nodes before writing and never appends a point equal to the last appended one; (reverse) every buildPath call site passes the engine's reverseSolution option, and the offsetter derives it as ReverseSolution != pathsReversed. Does NOT decide winding 0/1 of the whole solution, hole orientation or idempotence of re-union.",
 		notDecided: []string{"winding number 0/1 of the solution (geometry of the sweep)", "orientation of outer boundaries vs holes (addLocalMinPoly side choice)", "idempotence of re-uniting a solution"},
-		rules:      []func(*Ctx){ruleEmit("C02"), ruleBuildPath("C02.buildPath"), ruleCleanCollinear("C02.clean")},
+		rules:      []func(*Ctx){ruleEmit("C02"), ruleBuildPath("C02.buildPath"), ruleCleanCollinear("C02.clean"), ruleGrowingList("C02.grow")},
 	})
 	register(&propDef{
 		id: "C04",
 		explanation: "Decides structural clauses of C04: (once) AddChild is called only from recursiveCheckOwners, under the polypath==nil guard, and its node is stored in outrec.polypath, so each output record is inserted at most once; (same-pipeline) tree polygons are produced by the same cleanCollinear -> buildPath(pts, c.reverseSolution, false, &outrec.path) pipeline as the flat result and outrec.path has no other writer; (hole) IsHole() is true exactly on even non-zero levels and Level() counts .parent links. Does NOT decide containment/nesting correctness (path1InsidePath2, owner heuristics) or innermost-parent choice.",
 		notDecided: []string{"containment and nesting (path1InsidePath2, checkSplitOwner, setOwner heuristics)", "innermost-parent choice", "equality of the polygon SET with the flat result when polygons split", "moveSplits appends loop indices instead of split values (deviation, not demonstrable: 120 000 random tree executions identical to a repaired copy)"},
-		rules:      []func(*Ctx){ruleEmit("C04"), ruleIsHole("C04.hole"), ruleHorzJoinOwner("C04.owner"), ruleLazyBounds("C04.bounds")},
+		rules:      []func(*Ctx){ruleEmit("C04"), ruleIsHole("C04.hole"), ruleHorzJoinOwner("C04.owner"), ruleLazyBounds("C04.bounds"), ruleGrowingList("C04.grow")},
 	})
 	register(&propDef{
 		id: "C12",
